@@ -152,6 +152,12 @@ Definition swapcase (p : phase) : phase :=
 Definition mem (p : phase) (l : list phase) : bool := existsb (Nat.eqb p) l.
 Definition target_phase (ps : list phase) (p : phase) : phase := if mem p ps then p else swapcase p.
 
+Fixpoint insert_phase (p : phase) (l : list phase) : list phase :=
+  match l with
+  | [] => [p]
+  | q :: t => if (p =? q)%nat then l else if (p <? q)%nat then p :: l else q :: insert_phase p t
+  end.
+Definition phase_set (l : list phase) : list phase := fold_right insert_phase [] l.   (* phase_tuple(set(...)) *)
 (* set_main_phase: the receiver takes the inlets' phase when all of them are single-phase with one phase *)
 Definition common_phase (ins : list stream) : option phase :=
   match ins with
@@ -167,15 +173,15 @@ Definition rows_of_phase (ps : list phase) (p : phase) (ins : list stream) : lis
   flat_map (fun s => map snd (filter (fun pv => (target_phase ps (fst pv) =? p)%nat) (pm s))) ins.
 Definition phases_of (ins : list stream) : list phase := flat_map phases ins.
 
-(* ChemicalIndexer.mix_from / MaterialIndexer.mix_from; [ins] are the inlets as they are NOW (the receiver
-   included when it is among them: SparseVector.mix_from accounts for it).  An inlet phase the
-   multi-phase receiver lacks in either case raises KeyError on the current tree (C01's subject; not exercised here). *)
+(* ChemicalIndexer.mix_from / MaterialIndexer.mix_from; [ins] are the inlets' indexers (the receiver's, when it is
+   among them, being its copy).  A multi-phase receiver keeps its phases when every inlet phase is found in its
+   PhaseIndexer (under its own name or its other-case variant); otherwise _expand_phases adds ALL inlet phases it
+   does not have by name and every row is then placed by name. *)
 Definition imol_mix (self : stream) (ins : list stream) : res stream :=
   if multi self then
-    if forallb (fun p => mem (target_phase (phases self) p) (phases self)) (phases_of ins) then
-      Ok (mkS true (map (fun pv => (fst pv, vsum (length (snd pv)) (rows_of_phase (phases self) (fst pv) ins))) (pm self))
-              (sT self) (sP self))
-    else Err EKey
+    let ps := if forallb (fun p => mem (target_phase (phases self) p) (phases self)) (phases_of ins)
+              then phases self else phase_set (phases self ++ phases_of ins) in
+    Ok (mkS true (map (fun p => (p, vsum (ncomp self) (rows_of_phase ps p ins))) ps) (sT self) (sP self))
   else
     let p := match common_phase ins with Some p => p | None => phase1 self end in
     Ok (mkS false [(p, vsum (ncomp self) (all_rows ins))] (sT self) (sP self)).
@@ -186,21 +192,18 @@ Definition copy_like (self other : stream) (same : bool) : res stream :=
     if same then Ok self
     else if multi other then
       if list_eqb Nat.eqb (phases self) (phases other) then Ok (mkS true (pm other) (sT other) (sP other))
-      else Err EOther                      (* compatible_with / _expand_phases paths: not modelled *)
-    else if mem (target_phase (phases self) (phase1 other)) (phases self) then
-      Ok (mkS true (map (fun pv => (fst pv, if (fst pv =? target_phase (phases self) (phase1 other))%nat then row1 other
-                                             else vzero (length (snd pv)))) (pm self))
+      else Err EOther                      (* MaterialIndexer.copy_like between different phase sets: not modelled *)
+    else
+      (* MaterialIndexer.copy_like(ChemicalIndexer): empty; a phase the PhaseIndexer does not know is added; the row
+         found for the phase takes the flows *)
+      let p := phase1 other in
+      let ps := if mem (target_phase (phases self) p) (phases self) then phases self else phase_set (phases self ++ [p]) in
+      Ok (mkS true (map (fun q => (q, if (q =? target_phase ps p)%nat then row1 other else vzero (ncomp self))) ps)
               (sT other) (sP other))
-    else Err EOther                        (* _expand_phases path: not modelled *)
   else if multi other then
     match pm other with
     | [pv] => Ok (mkS false [pv] (sT self) (sP self))     (* one-phase MultiStream: returns before T, P are copied *)
-    | _ =>
-        (* self.phases = other.phases (to_material_indexer raises when neither the stream's phase nor its other-case
-           variant is among them); copy rows; copy T, P *)
-        if mem (target_phase (phases other) (phase1 self)) (phases other)
-        then Ok (mkS true (pm other) (sT other) (sP other))
-        else Err EUndefPhase
+    | _ => Ok (mkS true (pm other) (sT other) (sP other)) (* self.empty(); self.phases = other.phases; copy rows, T, P *)
     end
   else if same then Ok self
   else Ok (mkS false (pm other) (sT other) (sP other)).
@@ -228,12 +231,6 @@ Definition imol_sep (self other : stream) : res stream :=
   else Ok (mkS false [(phase1 self, vsub (row1 self) (mol_sum other))] (sT self) (sP self)).
 
 (* ------------------------------------------------------------------ phases setter (used by the fallback of mix_from) *)
-Fixpoint insert_phase (p : phase) (l : list phase) : list phase :=
-  match l with
-  | [] => [p]
-  | q :: t => if (p =? q)%nat then l else if (p <? q)%nat then p :: l else q :: insert_phase p t
-  end.
-Definition phase_set (l : list phase) : list phase := fold_right insert_phase [] l.   (* phase_tuple(set(...)) *)
 Definition group_nonempty (s : stream) (a b : phase) : bool :=
   existsb (fun pv => ((fst pv =? a)%nat || (fst pv =? b)%nat) && row_any (snd pv)) (pm s).
 (* Stream.phase / MultiStream.phase as a list of characters *)
